@@ -99,6 +99,8 @@ impl Boudot2000RangeProof {
     where
         H: Digest,
     {
+        // the challenge below is the whole digest, not a t-bit value: the blindings must cover challenge * secret
+        let t = t.max(8 * <H as Digest>::output_size() as u32);
         let omega = rand_int(
             Integer::from(1),
             Integer::from(2).pow(l + t) * b - Integer::from(1),
@@ -414,10 +416,14 @@ impl Boudot2000RangeProof {
             * Integer::from(h.pow_mod_ref(&r_b_2, n).unwrap()))
             % n;
 
+        // the square proofs are about x_?_1 = floor(sqrt(x_?)) < 2^(T/2 + 1) * (sqrt(b - a) + 1), not about a value below b, and
+        // their second randomness r_?_1 - r_2 * x_?_1 is below 2^(s + T + 1) * n: bound and blinding length follow the secrets
+        let b_sq = Integer::from(2).pow(T / 2 + 1) * (Integer::from((Integer::from(b) - a).sqrt_ref()) + Integer::from(1));
+        let s2_sq = s2.max(s + T + 1);
         let proof_of_square_a =
-            Self::proof_of_square::<H>(&x_a_1, &r_a_1, g, h, &E_a_1, l, t, b, s, s1, s2, n);
+            Self::proof_of_square::<H>(&x_a_1, &r_a_1, g, h, &E_a_1, l, t, &b_sq, s, s1, s2_sq, n);
         let proof_of_square_b =
-            Self::proof_of_square::<H>(&x_b_1, &r_b_1, g, h, &E_b_1, l, t, b, s, s1, s2, n);
+            Self::proof_of_square::<H>(&x_b_1, &r_b_1, g, h, &E_b_1, l, t, &b_sq, s, s1, s2_sq, n);
         let proof_large_i_a =
             Self::proof_large_interval_specific::<H>(&x_a_2, &r_a_2, g, h, t, l, b, s, n, T);
         let proof_large_i_b =
